@@ -281,6 +281,18 @@ def domain(tier, seed):
         dom.append((s, ['random']))
         count += 1
     dom.extend(atom_family())
+    # deep trees (heights the enumeration never reaches: a depth threshold in a printer shows only here): chains of lists / tuples
+    # with a second leaf at every level, 8 and 12 levels deep
+    for H2, kinds in ((8, ('list', 'tuple')), (12, ('list', 'list'))):
+        n = [500]
+
+        def leaf():
+            n[0] += 1
+            return ('int', n[0])
+        t = leaf()
+        for lvl in range(H2):
+            t = (kinds[lvl % 2], [leaf(), t])
+        dom.append((t, ['deep']))
     return dom
 
 
